@@ -19,13 +19,13 @@ FUNCTIONS = ["solvor.milp.solve_milp", "solvor.milp._solve_node", "solvor.milp._
 BOUNDS = {
     "quick": "n=2 variables (all-integer and mixed), n=3 binary-style, and n=3 mixed (two integer, one continuous, per-variable upper bounds 1 or 3), constraint rows from {-1,0,1,2} (1-2 general rows, VERIF_SEED-sampled) plus box "
              "rows x_j <= U (U=3, or 1 for the binary family), c from {-2..3}, minimize/maximize; b of the general rows symbolic Ints in -20..20; options: "
-             "heuristics on/off, warm start absent / feasible-looking / wrong length, lns_iterations 0/1, solution_limit 1/2",
+             "heuristics on/off, warm start absent / concrete / symbolic values / wrong length, lns_iterations 0/1, solution_limit 1/2",
     "thorough": "more sampled (A,c) cells (x8), U=4, 3 general rows",
 }
 OUTSIDE = "unbounded integer boxes; more than 3 variables; float rounding; max_nodes is set to 500 (never reached on the unchanged tree; bounds runaway branching), max_iter default"
 ASSUMPTIONS = ["floats as exact reals; array('d') shim in solvor.simplex; Random replaced by a symbolic stream in solvor.milp (LNS)",
                "tolerance 1e-5 on feasibility / integrality / objective (eps=1e-6 guards executed exactly)",
-               "warm starts are concrete vectors (structural), their feasibility depends on the symbolic b"]
+               "warm starts: concrete vectors (feasibility depends on the symbolic b) and vectors of symbolic Reals in -3..4 (any value, incl. negative / fractional)"]
 STUBS = ["solvor.simplex.array := list shim", "solvor.milp.Random := SymRandom", "solvor.milp.float := symbolic float"]
 GOALS = {"quick": ["milp.optimal", "milp.infeasible", "milp.branching", "milp.mixed", "milp.binary", "milp.warm_start", "milp.solution_pool"],
          "thorough": ["milp.optimal", "milp.infeasible", "milp.branching"]}
@@ -59,7 +59,11 @@ def h_milp(s, rows, c, U, integers, minimize, heuristics=True, warm=None, lns=0,
     s.patch(mod, Random=SymRandom(s))
     kw = {"heuristics": heuristics, "lns_iterations": lns, "solution_limit": solution_limit, "max_nodes": 500}
     if warm is not None:
-        kw["warm_start"] = [float(v) for v in warm]
+        if warm == "symbolic":
+            # warm-start VALUES are symbolic Reals (the length is structural): feasibility of the incumbent is decided by the solver
+            kw["warm_start"] = [s.real("warm%d" % j, -3, 4) for j in range(n)]
+        else:
+            kw["warm_start"] = [float(v) for v in warm]
         s.goal("milp.warm_start")
     res = mod.solve_milp(cin, Ain, bin_, list(integers), minimize=minimize, seed=1, **kw)
     st = res.status
@@ -155,6 +159,8 @@ def items(tier, rng):
                 out.append({"name": "milp_noheur", "harness": "h_milp", "params": dict(base, heuristics=False), "max_paths": 400})
             if ci % 4 == 1:
                 out.append({"name": "milp_pool", "harness": "h_milp", "params": dict(base, solution_limit=2), "max_paths": 400})
+            if ci % 3 == 1:
+                out.append({"name": "milp_warm_sym", "harness": "h_milp", "params": dict(base, warm="symbolic"), "max_paths": 250})
             if ci % 4 == 2:
                 w = [rng.randint(0, (U[k] if isinstance(U, list) else U)) for k in range(len(c))]
                 out.append({"name": "milp_warm", "harness": "h_milp", "params": dict(base, warm=w), "max_paths": 400})
